@@ -605,7 +605,15 @@ func (u *URI) updateBytes(newURI, buf []byte) []byte {
 		return buf
 	}
 
+	// "//" introduces an authority only at the start of a reference or directly
+	// behind its scheme; anywhere else (in the path, in a query value like
+	// "?next=http://a.com/") it is data
 	n := bytes.Index(newURI, bytestr.StrSlashSlash)
+	if n > 0 {
+		if m := bytes.IndexAny(newURI, "/?#"); m != n || n < 2 || newURI[n-1] != ':' {
+			n = -1
+		}
+	}
 	if n >= 0 {
 		// absolute uri
 		var b [32]byte
@@ -614,7 +622,8 @@ func (u *URI) updateBytes(newURI, buf []byte) []byte {
 			schemeOriginal = append([]byte(nil), u.scheme...)
 		}
 		if n == 0 {
-			newURI = bytes.Join([][]byte{u.scheme, bytestr.StrColon, newURI}, nil)
+			// (Scheme(): the implicit http of a URI whose scheme was never set)
+			newURI = bytes.Join([][]byte{u.Scheme(), bytestr.StrColon, newURI}, nil)
 		}
 		u.Parse(nil, newURI)
 		if len(schemeOriginal) > 0 && len(u.scheme) == 0 {
